@@ -116,6 +116,19 @@ CHECKS = {
             "ssh gated operations are not part of the property; sequences are sampled per credential set by seed.",
             "TLA+ spec + TLC exhaustive/simulate generation, replay into the real services",
             "DESIGN.md §3 C12"),
+    "C04": ("model_checking",
+            "Framing.tla models delivery of a request stream in arbitrary segments and the service's parse loop (header pieces, "
+            "terminator, announced body); TLC checks SegmentationIndependence (every terminal state has events = RefParse: each "
+            "request once, in order, with its whole body) over all segmentations of three stream shapes and requires the two "
+            "deviations found in the code (reader per request, single body read) to violate it; real request streams for ftp, "
+            "smtp (incl. DATA and BDAT), redis, memcached, telnet, http, ldap, elasticsearch, docker, eos, ethereum, cwmp, ipp are "
+            "sent to the real server whole, with every single byte cut exhaustively, with TLC's multi-cut sets mapped onto the "
+            "request landmarks, dribbled, multi-cut at random and lock-step; dns, tftp, snmp, memcached, counterstrike datagrams "
+            "one by one; the captured events' decoded fields must equal the expected list in every case.",
+            "Decoded fields per service are listed in mbt/protocols.py (C04 tables); one-request-per-connection services get one "
+            "request; timing: events are collected after the connection went quiet and was half-closed.",
+            "TLA+ spec + TLC exhaustive segmentations, replay of cut sets on real services, expected events = RefParse",
+            "DESIGN.md §3 C04"),
 }
 
 NOT_YET = "check not built yet in this session (see DESIGN.md §10 for the order of construction)"
